@@ -442,8 +442,11 @@ func runTrace(t *testing.T, seed uint64, forced []string) (res traceResult) {
 		if noConc {
 			res.tags["immediate-rotation-config"] = true
 		}
-		if len(forced) > 0 {
+		if len(forced) > 0 && forced[0] == "fixed-cfg" {
 			ratio, jitter = 0.5, 0
+			forced = forced[1:]
+		} else if len(forced) > 0 {
+			ratio, jitter = float64(1+r.Intn(9))/10, 0
 		}
 		h := &tracer{entered: make(chan int64, 8), replyCh: make(chan reply), doneCh: make(chan int, 64), gidOf: map[int64]int{}}
 		opts := &security.Options{
@@ -728,6 +731,12 @@ func runTrace(t *testing.T, seed uint64, forced []string) (res traceResult) {
 					op = "reply"
 				}
 			}
+			if strings.HasPrefix(op, "reply") && inCSR == 0 {
+				continue
+			}
+			if strings.HasPrefix(op, "advance") && len(waiters) > 0 {
+				continue // the fake clock cannot advance while a goroutine is parked on a sync.Mutex
+			}
 			switch {
 			case op == "start" || op == "start-root" || op == "start-workload":
 				name := security.WorkloadKeyCertResourceName
@@ -748,6 +757,40 @@ func runTrace(t *testing.T, seed uint64, forced []string) (res traceResult) {
 			case strings.HasPrefix(op, "reply-ok-roots="):
 				id, _ := strconv.Atoi(strings.TrimPrefix(op, "reply-ok-roots="))
 				doReply(reply{kind: "ok", ttl: time.Hour, bundle: []int{id}, chainRt: 1})
+			case op == "reply-ok":
+				rep := pickReply()
+				rep.kind = "ok"
+				doReply(rep)
+			case op == "bundle-change":
+				b := []int{1 + r.Intn(nRoots)}
+				if fmt.Sprint(b) == fmt.Sprint(curBundle) {
+					b = append(b, 1+r.Intn(nRoots))
+				}
+				curBundle = b
+				res.tags["bundle:changed"] = true
+				_ = sc.UpdateConfigTrustBundle(bundlePEM(b))
+				emit(vlib.App("HBundle", zlist(b)))
+			case op == "advance-small":
+				advance(int64(r.Intn(1_000_000)))
+			case op == "advance-first-due":
+				// to the earliest pending due time (possibly a stale task's), or one tick around it
+				if len(pending) > 0 {
+					mn := pending[0].hi
+					for _, p := range pending {
+						if p.hi < mn {
+							mn = p.hi
+						}
+					}
+					d := mn - time.Now().UnixNano() + int64(r.Intn(3)) - 1
+					if d < 0 {
+						d = 0
+					}
+					res.tags["advance:at-rotation"] = true
+					advance(safeAdvance(d))
+				}
+			case op == "advance-far":
+				advance(int64(500 * 24 * time.Hour))
+				res.tags["advance:long"] = true
 			case op == "advance-rotate":
 				mx := int64(0)
 				for _, p := range pending {
@@ -939,13 +982,13 @@ func TestGen(t *testing.T) {
 	}
 	id++
 	if c.Wanted(id) {
-		tr := runTrace(t, 1, []string{"start-workload", "reply-ok-roots=1", "advance-rotate", "start-root", "reply-ok-roots=2", "start-workload"})
+		tr := runTrace(t, 1, []string{"fixed-cfg", "start-workload", "reply-ok-roots=1", "advance-rotate", "start-root", "reply-ok-roots=2", "start-workload"})
 		c.FindingOf[id] = findingRoot
 		c.Add(vlib.Case{ID: id, Term: traceTerm(id, tr), Tags: []string{"trace", "finding-reproducer"}, Sample: map[string]any{"kind": "trace", "steps": sampleSteps(tr)}})
 	}
 
 	// 2. rotateTime
-	nrot := vlib.Scale(3000, 60000)
+	nrot := vlib.Scale(2000, 60000)
 	synctest.Test(t, func(t *testing.T) {
 		r := vlib.NewRand(seed ^ 0xc18)
 		for i := 0; i < nrot; i++ {
@@ -981,7 +1024,7 @@ func TestGen(t *testing.T) {
 	})
 
 	// 3. traces
-	ntr := vlib.Scale(400, 8000)
+	ntr := vlib.Scale(300, 8000)
 	rs := vlib.NewRand(seed ^ 0x7ace)
 	for i := 0; i < ntr; i++ {
 		id++
@@ -990,7 +1033,13 @@ func TestGen(t *testing.T) {
 			continue
 		}
 		var tr traceResult
-		if pan, msg := vlib.Recover(func() { tr = runTrace(t, s, nil) }); pan {
+		var script []string
+		if i%6 == 5 {
+			// scenario family: a superseded certificate's rotation task comes due while a newer one is cached
+			script = []string{"start", "reply-ok", "advance-small", "bundle-change", "start", "reply-ok", "advance-first-due",
+				"start-workload", "reply-ok", "advance-first-due", "start", "reply-ok", "advance-far", "start-workload", "reply-ok"}
+		}
+		if pan, msg := vlib.Recover(func() { tr = runTrace(t, s, script) }); pan {
 			c.Violate(vlib.Violation{ID: id, Kind: "panic", Detail: msg, Case: map[string]any{"trace_seed": s}})
 			continue
 		}
@@ -999,6 +1048,9 @@ func TestGen(t *testing.T) {
 			continue
 		}
 		tags := []string{"trace"}
+		if script != nil {
+			tags = append(tags, "scenario:stale-task")
+		}
 		for k := range tr.tags {
 			tags = append(tags, k)
 		}
